@@ -73,6 +73,10 @@ def run(R):
     import props.C10 as _C10
     R.import_rules("C08", _C08.run, ["C08.admit", "C08.shrink"], "C11.fetcher")
     R.import_rules("C10", _C10.run, ["C10.prune", "C10.put.prune"], "C11.evict")
+    # "choosing replication candidates ... filters exactly as this integer does": every routing-table peer within the range is a
+    # candidate, none is cut away before or after the range filter (rule of C09)
+    import props.C09 as _C09
+    R.import_rules("C09", _C09.run, ["C09.candidates"], "C11.replicate")
     F = R.F
     refpoint_rules(R)
     order_and_endian_rules(R)
